@@ -4,8 +4,8 @@ import json, os
 V = os.path.dirname(os.path.dirname(os.path.abspath(__file__)))
 TRUST = "trusted: Coq 8.16.1 kernel, tools/gen_tables.py, extraction (ExtrOcamlBasic only) + OCaml drivers, C/Python harnesses, sanitizers; models are hand-written and tied to the code by generated tables and the correspondence run"
 CHECKS = {
- "C01": ("proof", "Coq theorems on the loader model (framing: termination, conservation of bytes, accepted => validated, message = announced prefix); the validator = specification-decoder half is decided by correspondence: implementation, extracted model and the extracted Coq specification decoder run on every generated case (structured valid messages, every single-byte corruption at every offset, hand-aimed boundary cases) incl. accessor dumps; partial: soundness/completeness against the spec decoder is not yet a theorem",
-         "Coq proof (framing) + differential correspondence with an extracted specification decoder as oracle"),
+ "C01": ("proof", "Coq theorems on the loader model: COMPLETENESS (C01_complete: the canonical serialisation of every well-formed abstract message, followed by any bytes, is framed, validated and queued exactly; C01_value_complete_partial / C01_body_complete_partial: the model of validate_body_helper accepts every encoded well-formed value incl. the fixed-array fast path), framing (termination, conservation of bytes, accepted => validated, message = announced prefix, size limits); SOUNDNESS (accepted => specification-valid) and memory safety of the C code are decided by correspondence: implementation, extracted model and the extracted specification decoder run on every generated case (structured valid messages, every single-byte corruption at every offset, boundary cases) incl. accessor dumps, under ASan/UBSan",
+         "Coq proof (loader completeness against the spec encoder + framing) + differential correspondence with the extracted specification decoder as oracle"),
  "C02": ("proof", "model of construction = abstract message (Wire.HeaderEdit.build) + the specification encoder; Coq theorems: the encoder/decoder ROUND TRIP at value and body level for every byte order, position and nesting (C02_value_roundtrip, C02_body_roundtrip: numbers, strings, arrays, structs, dict entries, variants), plus the abstract laws (signature field, byte-order conversion changes no value and is involutive, copy = equal message with serial 0); and at MESSAGE level (C02_roundtrip: spec decoder of the canonical serialisation of any well-formed abstract message = that message, either byte order, any field order); the DBusTypeWriter is tied to the encoder per generated program: implementation bytes = extracted spec encoder bytes, spec decoder accepts them with identical re-encoding, reparse dump identical, re-marshal byte-identical, other-byte-order encoding read back through the iterator; the signature print/parse premises inside wf_msg are discharged for all well-formed types (C02_variant_wellformed, C16_signature_print_parse)",
          "Coq proof (abstract laws) + byte-exact differential against the extracted specification encoder/decoder"),
  "C12": ("proof", "Coq theorems on the abstract header editor (read-back, deletion, all other fields keep value/presence/relative order, strip removes exactly the unknown fields, flags/serial/type/signature/body untouched for every edit sequence) and on re-serialisation (C12_fields_reserialise: the encoded field array of any well-formed field list decodes back to exactly that list); the byte-level C code is tied to the model by comparing the serialised bytes after every edit on generated messages in both byte orders with shuffled and unknown fields; and C12_wellformed: the re-serialisation of any well-formed edited message decodes to exactly that message",
